@@ -61,7 +61,7 @@ func iface_ImportTracker_AddType(self ImportTracker, o gengotypes.TypeName) { se
 func lemma_trackerAddType(t *defaultImportTracker, o gengotypes.TypeName) { t.AddType(o) }
 
 //@ func lemma_trackerAddType
-//@   props C03
+//@   props C03 C15
 //@   requires spec_inv(t) && std != nil && o != nil && o.Pkg() != nil
 //@   assigns t.pathToName, t.nameToPath
 //@   ensures has(t.Imports(), o.Pkg().Path()) && spec_validName(t.Imports()[o.Pkg().Path()]) && t.LocalNameOf(o.Pkg().Path()) == t.Imports()[o.Pkg().Path()]
@@ -90,13 +90,13 @@ func spec_isTracker(t ImportTracker) bool { _, ok := t.(*defaultImportTracker); 
 func spec_isRawNamer(n Namer) bool { _, ok := n.(*rawNamer); return ok }
 
 //@ func defaultImportTracker.usable
-//@   props C03
+//@   props C03 C15
 //@   pure
 //@   requires tracker != nil && std != nil
 //@   ensures result == (spec_validName(localName) && (!tracker.checkStd || !has(std.nameToPath, localName) || std.nameToPath[localName] == path) && !has(tracker.nameToPath, localName))
 
 //@ func defaultImportTracker.add
-//@   props C03
+//@   props C03 C15
 //@   requires spec_inv(tracker) && std != nil
 //@   assigns tracker.pathToName, tracker.nameToPath
 //@   ensures spec_inv(tracker)
@@ -109,7 +109,7 @@ func spec_isRawNamer(n Namer) bool { _, ok := n.(*rawNamer); return ok }
 //@   note termination of the fallback numbering loop (loop 2) is not verified: infinitely many candidate names, finitely many taken
 
 //@ func defaultImportTracker.AddType
-//@   props C03
+//@   props C03 C15
 //@   requires spec_inv(tracker) && std != nil && o != nil && o.Pkg() != nil
 //@   assigns tracker.pathToName, tracker.nameToPath
 //@   ensures spec_inv(tracker)
@@ -118,7 +118,7 @@ func spec_isRawNamer(n Namer) bool { _, ok := n.(*rawNamer); return ok }
 //@   ensures old(has(tracker.pathToName, o.Pkg().Path())) ==> eq(tracker.pathToName, old(tracker.pathToName))
 
 //@ func defaultImportTracker.LocalNameOf
-//@   props C03
+//@   props C03 C15
 //@   pure
 //@   requires tracker != nil
 //@   ensures result == tracker.pathToName[path]
